@@ -323,3 +323,128 @@ func TestVerif_C19_DescriptionStore(t *testing.T) {
 }
 
 func strPtr(s string) *string { return &s }
+
+// ---------------------------------------------------------------------------------------------
+// The registry of live groups: whatever lies in the groups directory and whoever asks, a name the
+// statement calls invalid never becomes a group (registered, listed, public, joinable).
+
+var c19gRec = verifkit.New("TestVerif_C19_GroupRegistry",
+	"fresh groups directory holding description files (public, joinable by anybody) under 1..4 names over the hostile alphabet -- every invalid name that can exist as a file "+
+		"below the directory (a backslash is an ordinary character in a Unix file name; the administrative API creates such files verbatim), next to valid ones; then 2..8 of: the "+
+		"periodic scan (Update), Add(name, nil), Add(name, description read from the store), AddClient(name, anybody); oracle after every step: no invalid name is registered "+
+		"(Get), listed (GetNames), published (GetPublic) or joined, Add/AddClient of it fail; non-trivial = an invalid name had a file and the scan ran; distinct by names+ops")
+
+var c19gOnce sync.Once
+var c19gRoot string
+
+func TestVerif_C19_GroupRegistry(t *testing.T) {
+	defer c19gRec.Flush()
+	c19gOnce.Do(func() { c19gRoot = verifkit.Scratch("c19g") })
+	root := c19gRoot
+	rapid.Check(t, func(t *rapid.T) {
+		os.RemoveAll(filepath.Join(root, "tree"))
+		gdir := filepath.Join(root, "tree", "groups")
+		os.MkdirAll(gdir, 0o755)
+		os.MkdirAll(filepath.Join(root, "tree", "data"), 0o755)
+		Directory = gdir
+		DataDirectory = filepath.Join(root, "tree", "data")
+		seg := rapid.OneOf(rapid.SampledFrom([]string{"a\\b", "\\", "lobby\\..\\..\\outside", "a\\", "\\a", "room", "a", "b", "a.b", "é", "..", ".", "", "%2e%2e"}), rapid.StringMatching(`[a-b.\\%]{1,4}`))
+		var names []string
+		haveFile := map[string]bool{}
+		for i, n := 0, rapid.IntRange(1, 4).Draw(t, "nnames"); i < n; i++ {
+			name := strings.Join(rapid.SliceOfN(seg, 1, 3).Draw(t, "segs"), "/")
+			names = append(names, name)
+			// the file exists if the name can be one below the groups directory
+			clean := true
+			for _, c := range strings.Split(name, "/") {
+				if c == "" || c == "." || c == ".." || strings.ContainsRune(c, 0) {
+					clean = false
+				}
+			}
+			if clean {
+				fn := filepath.Join(gdir, filepath.FromSlash(name)+".json")
+				os.MkdirAll(filepath.Dir(fn), 0o755)
+				if os.WriteFile(fn, []byte(`{"public":true,"wildcard-user":{"password":{"type":"wildcard"},"permissions":"present"}}`), 0o600) == nil {
+					haveFile[name] = true
+				}
+			}
+		}
+		defer func() {
+			for _, n := range GetNames() {
+				if g := Get(n); g != nil {
+					for _, c := range g.GetClients(nil) {
+						DelClient(c)
+					}
+				}
+				Delete(n)
+			}
+		}()
+		var ops []string
+		scanned, invalidWithFile := false, false
+		for _, n := range names {
+			if !refValidGroup(n) && haveFile[n] {
+				invalidWithFile = true
+			}
+		}
+		check := func(step string) {
+			for _, n := range GetNames() {
+				if !refValidGroup(n) {
+					t.Fatalf("C19 after %s: the invalid name %q is a live group (GetNames) [%v]", step, n, ops)
+				}
+			}
+			for _, n := range names {
+				if !refValidGroup(n) && Get(n) != nil {
+					t.Fatalf("C19 after %s: the invalid name %q is a live group (Get) [%v]", step, n, ops)
+				}
+			}
+			for _, p := range GetPublic(nil) {
+				if !refValidGroup(p.Name) {
+					t.Fatalf("C19 after %s: the invalid name %q is published as a public group [%v]", step, p.Name, ops)
+				}
+			}
+		}
+		nc := 0
+		for i, n := 0, rapid.IntRange(2, 8).Draw(t, "nops"); i < n; i++ {
+			op := rapid.SampledFrom([]string{"scan", "scan", "add", "add-with-description", "join"}).Draw(t, "op")
+			name := names[rapid.IntRange(0, len(names)-1).Draw(t, "which")]
+			valid := refValidGroup(name)
+			switch op {
+			case "scan":
+				Update()
+				scanned = true
+				ops = append(ops, "scan")
+			case "add":
+				_, err := Add(name, nil)
+				ops = append(ops, fmt.Sprintf("Add(%q)=%v", name, err == nil))
+				if !valid && err == nil {
+					t.Fatalf("C19: Add(%q) succeeded for an invalid group name [%v]", name, ops)
+				}
+			case "add-with-description":
+				desc, err := GetDescription(name)
+				if err != nil {
+					desc = &Description{Public: true}
+				}
+				_, err = Add(name, desc)
+				ops = append(ops, fmt.Sprintf("Add(%q, desc)=%v", name, err == nil))
+				if !valid && err == nil {
+					t.Fatalf("C19: Add(%q, description) succeeded for an invalid group name [%v]", name, ops)
+				}
+			case "join":
+				nc++
+				c := &c19Client{id: fmt.Sprintf("j%d", nc)}
+				g, err := AddClient(name, c, ClientCredentials{Username: strPtr("visitor"), Password: "x"})
+				ops = append(ops, fmt.Sprintf("AddClient(%q)=%v", name, err == nil))
+				if err == nil {
+					c.g = g
+					if !valid {
+						t.Fatalf("C19: a client joined the group with the invalid name %q [%v]", name, ops)
+					}
+				}
+			}
+			check(ops[len(ops)-1])
+		}
+		c19gRec.Case(invalidWithFile && scanned, fmt.Sprint(names, ops), map[string]any{"names": names, "ops": ops})
+		c19gRec.ClassIf(invalidWithFile, "invalid_name_exists_as_a_file")
+		c19gRec.ClassIf(scanned, "periodic_scan_ran")
+	})
+}
